@@ -191,6 +191,7 @@ type Script struct {
 	items  []*Item
 	nfresh int
 	funs   map[string]bool
+	seen   map[string]bool
 }
 
 func newScript() *Script {
@@ -224,6 +225,13 @@ func (s *Script) assume(t string) {
 	if t == "true" {
 		return
 	}
+	if s.seen == nil {
+		s.seen = map[string]bool{}
+	}
+	if s.seen[t] {
+		return
+	}
+	s.seen[t] = true
 	s.items = append(s.items, &Item{Kind: ItAssume, Term: t, Decls: s.decl})
 	s.decl = nil
 }
